@@ -607,3 +607,15 @@ ITEMS += [
          ensures=[('C09:the_constructor_copies_its_arguments_and_starts_with_empty_replay_state', _CTOR_ENS % 'EnforcingPolicy::AllContent'),
                   ('C10:a_string_source_has_no_reader_error', 'r.error.content() is None')]),
 ]
+# ---- F30 (C17): the recent-bytes ring of from_reader_with_options must be fed with the DECODED text (what locations refer to) ----
+ITEMS += [
+    dict(src='src/lib.rs', path='fn from_reader_with_options', id='from_reader_with_options#ring', props=['C17'],
+         fragment=r'(let reader = encoding_rs_io::DecodeReaderBytesBuilder::new\(\)[^;]*;\s*)?let shared_ring = [^;]*;\s*let ring_handle = [^;]*;',
+         fragment_flags='S',
+         wrapper="fn from_reader_ring_site(reader: ByteReader) -> (SharedRing, ByteReader) { {FRAG} (shared_ring, ring_handle) }",
+         rewrites=[(r'encoding_rs_io::DecodeReaderBytesBuilder::new\(\)', 'DecoderBuilder::new()', None, 'R8'),
+                   (r'\.encoding\(None\)', '.encoding_none()', None, 'R8'),
+                   (r'ring_reader::SharedRingReader::new\(reader\)', 'shared_ring_new(reader)', 1, 'R8'),
+                   (r'ring_reader::SharedRingReaderHandle::new\(&shared_ring\)', 'shared_ring_handle(&shared_ring)', 1, 'R8')],
+         ensures=[('C17:the_recent_bytes_window_is_filled_with_the_decoded_text_that_locations_refer_to', 'r.0.holds_decoded_text()')]),
+]
